@@ -13,6 +13,7 @@ division variants (AC.cpp, AC_libdivide.cpp).
 -/
 import PcProofs.EasyACEx
 import PcProofs.EasyAC8
+import PcProofs.EasyAC9
 import PcModel.Drv.EasyAC
 
 namespace Pc.C08EasyAC
@@ -207,6 +208,27 @@ theorem ac_entry_eq_def (f : ACFile) {t : NT} (hv : t.Valid) {w : ITy} {x y z k 
   rw [c1Lo_eq hv g hzb, c1Hi_eq hv hzb] at hsched
   exact acEntry_eq f g (acBounds_of hv hx hxw hxy63 hs hzb h63) hsched l hl hlast hsegs
 
+/-- the driver's segmentation (`uniformSegs`: every `get_work` hands out one segment of size `segSize`) is a chain
+    `0 < segSize < 2·segSize < … < top` -/
+theorem uniform_segments_are_chain {top ss : ℕ} (hss : 1 ≤ ss) (htop : 1 ≤ top) :
+    uniformSegs top ss = chainPairs (0 :: uniformBounds top ss) ∧ (0 :: uniformBounds top ss).Pairwise (· < ·) ∧
+    (0 :: uniformBounds top ss).getLast (List.cons_ne_nil _ _) = top := uniformSegs_chain hss htop
+
+/-- **what the ops `AC_loop` / `AC_plain` / `AC_segs` of pcdrv print IS `A + C`**: the mirror run with the round-robin C1 schedule of
+    `nt` threads and uniform segments of ANY size `segSize ≥ 1` -/
+theorem ac_loop_op (f : ACFile) {t : NT} (hv : t.Valid) {w : ITy} {x y z k : ℕ} (hy : irootN 3 x < y) (hy2 : y * y ≤ x)
+    (hyz : y ≤ z) (hz : z * z ≤ x) (hk : k ≤ Nat.primeCounting (irootN 4 x)) (hx : x < 2 ^ 127) (hxw : x ≤ w.maxVal)
+    (hxy63 : x / y ≤ ITy.i64.maxVal) (hs : Nat.sqrt x ≤ t.bound) (hzb : z ≤ t.bound) (h63 : t.bound ≤ ITy.i64.maxVal)
+    (nt : ℕ) {segSize : ℕ} (hss : 1 ≤ segSize) :
+    acEntry f t w x y z k (easySched (c1Lo t x z k) (c1Hi t z) nt) (uniformSegs (isqrtN x) segSize)
+      = .ok (A x y (xStar x y) (irootN 3 x) + C x y z k (xStar x y)) := by
+  have hx1 : 1 ≤ x := (gparams_facts (gparams_xStar hy hy2 hyz hz hk)).2.1
+  have htop : 1 ≤ Nat.sqrt x := Nat.le_sqrt.2 (by omega)
+  obtain ⟨e1, e2, e3⟩ := uniformSegs_chain hss htop
+  rw [isqrtN_eq, e1]
+  exact ac_entry_eq_def f hv hy hy2 hyz hz hk hx hxw hxy63 hs hzb h63
+    (staticSched1_isSchedule _ _ (lt_of_lt_of_le Nat.zero_lt_one (le_max_right nt 1))) _ e2 e3 (List.Perm.refl _)
+
 /-! ### non-vacuity -/
 
 /-- `x = 100000`, `y = 60`, level `b = 10` (`q = 29 > x⋆ = 28`), segments `[0, 240)`, `[240, 316)` (`316 = ⌊√x⌋`) -/
@@ -286,6 +308,14 @@ example := c1_eq .plain64 (NT.build_valid 2000) (w := .u64) (size := 18) (maxPi 
       · exact le_trans h3 (by norm_num)
       · omega)
   (-1) 4 1 0 (by norm_num) (by norm_num)
+example := ac_loop_op .plain (NT.build_valid 2000) (w := .u128) (x := 100000) (y := 60) (z := 100) (k := 2)
+  (by rw [irootN_eq_of (r := 46) (by norm_num) (by norm_num) (by norm_num)]; norm_num)
+  (by norm_num) (by norm_num) (by norm_num)
+  (by rw [irootN_eq_of (r := 17) (by norm_num) (by norm_num) (by norm_num),
+        show Nat.primeCounting 17 = 7 by decide]; norm_num)
+  (by norm_num) (by decide) (by decide)
+  (by show Nat.sqrt 100000 ≤ 2000; exact (Nat.sqrt_lt.2 (by norm_num)).le) (by show 100 ≤ 2000; norm_num)
+  (by show 2000 ≤ _; decide) 4 (segSize := 240) (by norm_num)
 
 end Pc.C08EasyAC
 
@@ -308,3 +338,5 @@ end Pc.C08EasyAC
 #print axioms Pc.C08EasyAC.ac_segment_levels_pruned
 #print axioms Pc.C08EasyAC.ac_loop_eq_def
 #print axioms Pc.C08EasyAC.ac_entry_eq_def
+#print axioms Pc.C08EasyAC.uniform_segments_are_chain
+#print axioms Pc.C08EasyAC.ac_loop_op
